@@ -4,6 +4,10 @@ mod gen;
 mod prog;
 mod run;
 mod toy;
+mod wire;
+
+#[global_allocator]
+static ALLOC: wire::Meter = wire::Meter;
 
 use cv::*;
 use prog::*;
@@ -30,6 +34,9 @@ trait CurveDyn {
     fn ipp(&self, insts: &[Value], seed: u64) -> (Vec<Value>, Vec<Value>);
     fn gens(&self, hists: &[Value]) -> Vec<Value>;
     fn gens_facts(&self, cap: usize, parties: usize) -> Value;
+    fn codec(&self, jobs: &[Value], seed: u64) -> Vec<Value>;
+    fn bitflip(&self, progs: &[Program], stride: usize) -> Vec<Value>;
+    fn mutate(&self, progs: &[Program], n: usize, seed: u64) -> Vec<Value>;
 }
 struct Dyn<C: Cv>(std::marker::PhantomData<C>);
 impl<C: Cv> CurveDyn for Dyn<C> {
@@ -48,6 +55,12 @@ impl<C: Cv> CurveDyn for Dyn<C> {
         let mut out = vec![];
         for p in progs {
             let r = run::run_program::<C>(p, true);
+            let same_wire = r.wire_bytes.is_some() && r.wire_bytes == r.proof_bytes;
+            let mut pp = p.clone();
+            if pp.expect_v == "reject_or_same" {
+                pp.expect_v = if same_wire { "ok".into() } else { "reject".into() };
+            }
+            let p = &pp;
             let bad = check_expectations(p, &r.events, &r.pres, &r.vres, &r.decode);
             out.push(serde_json::json!({"id": p.id, "curve": C::NAME, "pres": r.pres, "vres": r.vres, "decode": r.decode,
                                         "bad": bad, "proof": r.proof_bytes.as_ref().map(|b| cv::hex(b))}));
@@ -74,6 +87,25 @@ impl<C: Cv> CurveDyn for Dyn<C> {
     }
     fn gens_facts(&self, cap: usize, parties: usize) -> Value {
         aux::gens_facts::<C>(cap, parties)
+    }
+    fn codec(&self, jobs: &[Value], seed: u64) -> Vec<Value> {
+        let mut out = vec![];
+        for j in jobs {
+            let prog: Program = serde_json::from_value(j["prog"].clone()).expect("program");
+            let tests = j["tests"].as_array().cloned().unwrap_or_default();
+            for mut row in wire::codec_tests::<C>(&prog, &tests, seed) {
+                row["prog_id"] = serde_json::json!(prog.id);
+                row["curve"] = serde_json::json!(C::NAME);
+                out.push(row);
+            }
+        }
+        out
+    }
+    fn bitflip(&self, progs: &[Program], stride: usize) -> Vec<Value> {
+        progs.iter().map(|p| { let mut v = wire::bitflip_sweep::<C>(p, stride); v["prog_id"] = serde_json::json!(p.id); v }).collect()
+    }
+    fn mutate(&self, progs: &[Program], n: usize, seed: u64) -> Vec<Value> {
+        progs.iter().map(|p| { let mut v = wire::mutate_sweep::<C>(p, n, seed); v["prog_id"] = serde_json::json!(p.id); v }).collect()
     }
 }
 
@@ -160,6 +192,31 @@ fn main() {
             let parties: usize = arg(&args, "--parties").unwrap().parse().unwrap();
             let v = with_curve(&curve, |c| c.gens_facts(cap, parties));
             println!("{}", serde_json::to_string(&v).unwrap());
+        }
+        // codec --curve C --jobs FILE --seed S --out FILE     (jobs: {"prog":Program,"tests":[..]} per line)
+        "codec" => {
+            let curve = arg(&args, "--curve").unwrap();
+            let jobs = read_json_lines(&arg(&args, "--jobs").unwrap());
+            let seed: u64 = arg(&args, "--seed").map(|s| s.parse().unwrap()).unwrap_or(1);
+            let rows = with_curve(&curve, |c| c.codec(&jobs, seed));
+            write_json_lines(&arg(&args, "--out").unwrap(), &rows);
+        }
+        // bitflip --curve C --programs FILE --stride N --out FILE
+        "bitflip" => {
+            let curve = arg(&args, "--curve").unwrap();
+            let progs = read_programs(&arg(&args, "--programs").unwrap());
+            let stride: usize = arg(&args, "--stride").map(|s| s.parse().unwrap()).unwrap_or(1);
+            let rows = with_curve(&curve, |c| c.bitflip(&progs, stride));
+            write_json_lines(&arg(&args, "--out").unwrap(), &rows);
+        }
+        // mutate --curve C --programs FILE --n N --seed S --out FILE
+        "mutate" => {
+            let curve = arg(&args, "--curve").unwrap();
+            let progs = read_programs(&arg(&args, "--programs").unwrap());
+            let n: usize = arg(&args, "--n").map(|s| s.parse().unwrap()).unwrap_or(1000);
+            let seed: u64 = arg(&args, "--seed").map(|s| s.parse().unwrap()).unwrap_or(1);
+            let rows = with_curve(&curve, |c| c.mutate(&progs, n, seed));
+            write_json_lines(&arg(&args, "--out").unwrap(), &rows);
         }
         // genprogs --seed S --n N --out FILE [--maxops K] [--modulus P]
         "genprogs" => {
